@@ -797,7 +797,8 @@ def expand(cases, on_error=None):
         for i, st in enumerate(r["steps"]):
             out.append({"case": case, "index": i, "step": st})
             if "analysis2" in st:
-                out.append({"case": case, "index": i, "step": st, "which": "analysis2"})
+                out.append({"case": case, "index": i, "step": st, "which": "analysis2",
+                            "rescoring": case["type"] == "lexstat"})
     return out
 
 
